@@ -728,7 +728,9 @@ class MorganSpy:
     `_morgan` (the ranking); installed as a module global of chython.algorithms.morgan, removed afterwards"""
 
     def __enter__(self):
+        import logging
         import chython.algorithms.morgan as mg
+        logging.getLogger('chython.morgan').setLevel(logging.ERROR)   # "uniqueness has decreased" on malformed dicts is expected
         self.mg = mg
         self.last = None
         self.rounds = 0
